@@ -14,6 +14,25 @@ from .source import AnalysisError, ClassInfo, Project, parent
 Types = Optional[FrozenSet[ClassInfo]]  # None = unknown
 
 
+class IterOf:
+    """an iterable (comprehension result) whose elements have the given model types"""
+
+    def __init__(self, types: FrozenSet[ClassInfo]):
+        self.types = types
+
+
+def _always_exits(stmts) -> bool:
+    """the block cannot fall out of its end: it ends with continue / break / return / raise (or an if/else that does)"""
+    if not stmts:
+        return False
+    last = stmts[-1]
+    if isinstance(last, (ast.Continue, ast.Break, ast.Return, ast.Raise)):
+        return True
+    if isinstance(last, ast.If):
+        return _always_exits(last.body) and _always_exits(last.orelse)
+    return False
+
+
 class Narrower:
     """abstractly executes one property function for one concrete receiver class"""
 
@@ -64,16 +83,45 @@ class Narrower:
     def where(self, node):
         return f"{self.mod.relpath}:{getattr(node, 'lineno', '?')}"
 
+    def elements(self, it) -> Types:
+        """types of the elements obtained by iterating a value of type `it`"""
+        if isinstance(it, IterOf):
+            return it.types
+        if not it:
+            return None
+        mem: Set[ClassInfo] = set()
+        for t in it:
+            m = self.members(t)
+            if m is None:
+                return None
+            mem |= m
+        return frozenset(mem) if mem else None
+
     # -- expressions -----------------------------------------------------------
     def type_of(self, e, env: Dict[str, Types]) -> Types:
         if isinstance(e, ast.Name):
             return env.get(e.id)
+        if isinstance(e, (ast.ListComp, ast.GeneratorExp, ast.SetComp)):
+            inner = dict(env)
+            for g in e.generators:
+                it = self.type_of(g.iter, inner)
+                if isinstance(g.target, ast.Name):
+                    inner[g.target.id] = self.elements(it)
+                for cond in g.ifs:
+                    inner, _ = self.narrow_test(cond, inner)
+            t = self.type_of(e.elt, inner)
+            return IterOf(t) if isinstance(t, frozenset) and t else None
+        if isinstance(e, ast.Call) and isinstance(e.func, ast.Name) and e.func.id in ("list", "tuple", "iter", "sorted", "reversed") and len(e.args) == 1 and not e.keywords:
+            t = self.type_of(e.args[0], env)
+            return t if isinstance(t, IterOf) else None
         if isinstance(e, ast.Attribute):
             return self.read(e.value, e.attr, e, env)
         if isinstance(e, ast.Call) and isinstance(e.func, ast.Name) and e.func.id == "getattr" and len(e.args) >= 2 and isinstance(e.args[1], ast.Constant) and isinstance(e.args[1].value, str):
             return self.read(e.args[0], e.args[1].value, e, env, has_default=len(e.args) > 2)
         if isinstance(e, ast.Subscript):
             base = self.type_of(e.value, env)
+            if isinstance(base, IterOf):
+                return base.types
             if base:
                 out: Set[ClassInfo] = set()
                 for t in base:
@@ -85,7 +133,7 @@ class Narrower:
             return None
         if isinstance(e, ast.IfExp):
             a, b = self.type_of(e.body, env), self.type_of(e.orelse, env)
-            return (a | b) if a is not None and b is not None else None
+            return (a | b) if isinstance(a, frozenset) and isinstance(b, frozenset) else None
         # evaluate sub-expressions for their reads
         for ch in ast.iter_child_nodes(e):
             if isinstance(ch, ast.expr):
@@ -94,7 +142,7 @@ class Narrower:
 
     def read(self, base_expr, attr, node, env, has_default=False) -> Types:
         base = self.type_of(base_expr, env)
-        if base is None:
+        if base is None or isinstance(base, IterOf):
             self.unresolved += 1
             return None
         out: Set[ClassInfo] = set()
@@ -123,6 +171,8 @@ class Narrower:
             if classes is None:
                 raise AnalysisError(f"{self.label}: isinstance target {ast.unparse(test.args[1])} does not resolve to a class")
             cur = env.get(var)
+            if isinstance(cur, IterOf):
+                cur = None
             for c in classes:
                 self.tested.append(c)
                 if cur is not None:
@@ -142,6 +192,8 @@ class Narrower:
                 for other in set().union(*[dict(sn) for sn in snaps]):
                     allowed = frozenset().union(*[dict(sn).get(other, frozenset()) for sn in snaps])
                     cur = env.get(other)
+                    if isinstance(cur, IterOf):
+                        continue
                     narrowed[other] = allowed if cur is None else (cur & allowed)
             return (narrowed, dict(env)) if isinstance(test.ops[0], ast.IsNot) else (dict(env), narrowed)
         if isinstance(test, ast.Name):
@@ -167,6 +219,9 @@ class Narrower:
                 out[k] = {v: tuple(dict.fromkeys(ca.get(v, ()) + cb.get(v, ()))) for v in set(ca) | set(cb)}
                 continue
             x, y = a.get(k, frozenset()), b.get(k, frozenset())
+            if isinstance(x, IterOf) or isinstance(y, IterOf):
+                out[k] = IterOf(x.types | y.types) if isinstance(x, IterOf) and isinstance(y, IterOf) else None
+                continue
             out[k] = None if (x is None or y is None) else (x | y)
         return out
 
@@ -180,6 +235,11 @@ class Narrower:
             t_env, f_env = self.narrow_test(st.test, env)
             a = self.block(st.body, t_env)
             b = self.block(st.orelse, f_env)
+            ea, eb = _always_exits(st.body), _always_exits(st.orelse)
+            if ea and not eb:
+                return b
+            if eb and not ea:
+                return a
             return self.merge(a, b)
         if isinstance(st, (ast.For, ast.AsyncFor)):
             it = self.type_of(st.iter, env)
@@ -187,18 +247,7 @@ class Narrower:
                 it = frozenset([self.recv])
             inner = dict(env)
             if isinstance(st.target, ast.Name):
-                if it:
-                    mem: Set[ClassInfo] = set()
-                    ok = True
-                    for t in it:
-                        m = self.members(t)
-                        if m is None:
-                            ok = False
-                        else:
-                            mem |= m
-                    inner[st.target.id] = frozenset(mem) if ok and mem else None
-                else:
-                    inner[st.target.id] = None
+                inner[st.target.id] = self.elements(it)
             out = self.block(st.body, inner)
             out = self.merge(env, out)
             return self.block(st.orelse, out)
@@ -214,12 +263,12 @@ class Narrower:
                     if isinstance(st.value, ast.Constant) and st.value.value is None:
                         corr[tg.id] = ()
                     else:
-                        snap = tuple(sorted(((k, v) for k, v in env.items() if k not in ("$corr", "self", tg.id) and v), key=lambda kv: kv[0]))
+                        snap = tuple(sorted(((k, v) for k, v in env.items() if k not in ("$corr", "self", tg.id) and v and isinstance(v, frozenset)), key=lambda kv: kv[0]))
                         corr[tg.id] = (snap,)
                     new["$corr"] = corr
                     if isinstance(st.value, ast.Constant) and st.value.value is None:
                         new[tg.id] = frozenset()
-                    elif isinstance(st.value, (ast.List, ast.Dict, ast.Tuple)) :
+                    elif isinstance(st.value, (ast.List, ast.Dict, ast.Tuple)):
                         new[tg.id] = None
                     else:
                         new[tg.id] = t
@@ -333,7 +382,11 @@ def a_r2_r3_properties(schema: Schema, rep: Report):
     for cname, ci in schema.exported().items():
         for definer, fn in properties_of(schema, ci):
             nprops += 1
-            nr = Narrower(schema, ci, definer, fn, rep).run()
+            try:
+                nr = Narrower(schema, ci, definer, fn, rep).run()
+            except AnalysisError as e:
+                rep.undecided(f"A-R2 {cname}.{fn.name}", e)
+                continue
             if nr.tested:
                 tested_by.setdefault(fn.name, {})[cname] = nr.tested
             rep.unit("attribute_reads_typed", nr.reads)
@@ -368,9 +421,25 @@ def a_r2_r3_properties(schema: Schema, rep: Report):
                         rep.check("A-R3", f"{cname}.{fn.name}->self.{'.'.join(chain)}:same-name", chain[-1] == fn.name, f"{fn.name} returns .{chain[-1]}", lc)
             # like-named final attribute for currency shortcuts
             if fn.name in ("cursym", "currate"):
-                rets = [r for r in own_nodes(fn) if isinstance(r, ast.Return) and r.value is not None]
-                ok = bool(rets) and all(isinstance(r.value, ast.Attribute) and r.value.attr == fn.name for r in rets)
-                rep.check("A-R3", f"{cname}.{fn.name}:same-name", ok, f"{fn.name} does not return .{fn.name} of the currency aggregate" if not ok else "", f"{definer.mod.relpath}:{fn.lineno}")
+                from .flat import flat
+                from .match import Expander as _Ex
+                from .paths import return_paths
+
+                try:
+                    ffn = flat(schema.p, definer.module, fn, definer)
+                    rp, _pl = return_paths(ffn, None, _Ex(ffn))
+                except AnalysisError as e:
+                    rep.undecided(f"A-R3 {cname}.{fn.name}", e)
+                    continue
+                vals = [ast.parse(v, mode="eval").body for _q, v, _c in rp if v != "None"]
+                wrong = [v for v in vals if isinstance(v, ast.Attribute) and v.attr != fn.name]
+                right = [v for v in vals if isinstance(v, ast.Attribute) and v.attr == fn.name]
+                if wrong or not vals:
+                    rep.check("A-R3", f"{cname}.{fn.name}:same-name", False, f"{fn.name} returns {sorted({text(v) for v in wrong}) or None}, not .{fn.name} of the currency aggregate", f"{definer.mod.relpath}:{fn.lineno}")
+                elif len(right) == len(vals):
+                    rep.check("A-R3", f"{cname}.{fn.name}:same-name", True, "", f"{definer.mod.relpath}:{fn.lineno}")
+                else:
+                    rep.note(f"A-R3 undecided: {cname}.{fn.name} returns {sorted({text(v) for v in vals})}")
     rep.unit("shortcut_properties", nprops)
     rep.floor("A-R2", nprops, 40, "shortcut property instances")
     # request/response symmetry of `statements`
